@@ -289,8 +289,13 @@ def drive(recipe):
     def samples(v):
         return reference_samples(L, kind, v, theta, phi)
 
+    # change of units by an exact power of two: the function handed to the library is 2^scale2 times the Gaussian-integer one
+    # (tiny or huge coefficients), results are scaled back exactly before projection
+    sc = math.ldexp(1.0, int(recipe.get("scale2", 0)))
     tag = "creal" if kind == "real" else "ccplx"
-    cur = layout_array(func, tag)
+    cur = layout_array(func, tag) * sc
+    held = []                                # (event, op name, returned object): projected after the whole program has run,
+                                             # so a result that a later call overwrites is seen as what the caller then holds
     for op in program(kind, prog, rng, L):
         name = op[0]
         e = {"ev": name, "as": "", "exc": "", "off": False, "cx": False, "shape": [], "obs": [], "nzi": [],
@@ -300,10 +305,10 @@ def drive(recipe):
         try:
             if name == "Load":
                 tag = "creal" if kind == "real" else "ccplx"
-                cur = layout_array(func, tag)
+                cur = layout_array(func, tag) * sc
                 continue
             if name == "Sample":
-                cur = samples(func)
+                cur = samples(func) * sc
                 tag, out = "grid", cur
             elif name == "Combine":
                 g = gvecs[op[1]]
@@ -311,10 +316,10 @@ def drive(recipe):
                 e["k"], e["g"] = k, g
                 func = [[k * a + c, k * b + d] for (a, b), (c, d) in zip(func, g)]
                 if tag == "grid":
-                    cur = k * cur + samples(g)
+                    cur = k * cur + samples(g) * sc
                     out = cur
                 else:
-                    cur = k * cur + layout_array(g, tag)
+                    cur = k * cur + layout_array(g, tag) * sc
                     continue
             elif name == "Synthesis":
                 e["pv"] = bool(op[1]) and full
@@ -341,7 +346,10 @@ def drive(recipe):
         except Exception as ex:
             e["exc"] = type(ex).__name__
             break
+        held.append((e, name, out))
+    for e, name, out in held:
         out = np.asarray(out)
+        out = out / (sc * sc if name == "PowerSpectrum" else sc) if sc != 1.0 else out
         e["cx"] = bool(np.iscomplexobj(out))
         e["shape"] = [int(s) for s in out.shape]
         if name in ("Sample", "Combine", "Synthesis", "SynthesisPP"):
@@ -394,7 +402,8 @@ def recipes_for(ctx):
                     rs.append({"L": L, "kind": kind, "vec": sparse_spec(L, kind, rng, 6), "prog": "mixed", "seed": nxt(), "ne": 5})
                 rs.append({"L": L, "kind": kind, "vec": sparse_spec(L, kind, rng, 6), "prog": "main", "seed": nxt(),
                            "g1": sparse_spec(L, kind, rng, 1), "g2": sparse_spec(L, kind, rng, 1),
-                           "k1": rng.choice([-3, -2, 2, 3]), "k2": rng.choice([-3, -2, 2, 3])})
+                           "k1": rng.choice([-3, -2, 2, 3]), "k2": rng.choice([-3, -2, 2, 3]),
+                           "scale2": (0, -50, 40)[v % 3] if (L + v) % 2 else (-50, 0, 40)[v % 3]})
             if L <= 12:
                 for (l, m) in order:
                     a, b = rng.choice([-3, -2, -1, 1, 2, 3]), rng.choice([-3, -2, -1, 1, 2, 3])
